@@ -10,6 +10,7 @@
 //	   op = w h<name> h<content> <ok>
 //	      | r h<name> <ok|notexist|isdir|notdir|other> h<content>
 //	      | l h<prefix> <k> {h<name>}
+//	      | c h<dst> h<src> <ok>
 //	resolve h<name> <in h<rel> | out>
 //	svc     <upload|merge|chart> ... (see caseSvc)
 package main
@@ -268,52 +269,134 @@ func doList(b storage.BucketHandle, prefix string) []string {
 	return names
 }
 
+func doCopy(b storage.BucketHandle, dst, src string) bool {
+	return storage.Copy(ctx, b.Object(dst), b.Object(src)) == nil
+}
+
 func caseOps() {
 	s := newSandbox()
 	defer s.close()
-	nops := 4 + rnd.Intn(28)
-	fields := []string{"ops", I(int64(nops))}
+	target := 4 + rnd.Intn(28)
+	var ops []string
+	nops := 0
 	var known []string
 	collide, overwrite, emptyc, cutmid := false, false, false, false
-	for i := 0; i < nops; i++ {
-		switch k := rnd.Intn(10); {
-		case k < 5:
-			name := genName(known)
-			c := genContent()
-			ok := doWrite(s.b, name, c)
-			for _, kn := range known {
-				if kn == name {
-					overwrite = true
+	write := func(name string, c []byte) {
+		ok := doWrite(s.b, name, c)
+		for _, kn := range known {
+			if kn == name {
+				overwrite = true
+			}
+		}
+		if ok {
+			known = append(known, name)
+		} else {
+			collide = true
+		}
+		if len(c) == 0 {
+			emptyc = true
+		}
+		ops = append(ops, "w", HS(name), H(c), B(ok))
+		nops++
+	}
+	read := func(name string) {
+		tag, data := doRead(s.b, name)
+		if tag == "isdir" || tag == "notdir" {
+			collide = true
+		}
+		ops = append(ops, "r", HS(name), tag, H(data))
+		nops++
+	}
+	list := func(p string) {
+		names := doList(s.b, p)
+		if p != "" && !strings.HasSuffix(p, "/") {
+			cutmid = true
+		}
+		ops = append(ops, "l", HS(p), I(int64(len(names))))
+		for _, n := range names {
+			ops = append(ops, HS(n))
+		}
+		nops++
+	}
+	for nops < target {
+		switch k := rnd.Intn(24); {
+		case k < 9:
+			write(genName(known), genContent())
+		case k < 14:
+			read(genName(known))
+		case k == 23:
+			// walk order vs string order: a directory d (walked first, with everything below it) next to
+			// siblings d-x, d.json, "d x" ... whose names sort BEFORE "d/" as strings; then prefixes that
+			// select only the siblings
+			dir := ""
+			if len(known) > 0 && rnd.Bool() {
+				if b := Pick(rnd, known); strings.IndexByte(b, '/') > 0 {
+					dir = b[:strings.LastIndexByte(b, '/')]
 				}
 			}
+			if dir == "" {
+				dir = genComp()
+				write(dir+"/"+genComp(), genContent())
+			}
+			sep := Pick(rnd, []string{"-", ".", " ", "+", "!", ".json", "-x", "."})
+			sib := dir + sep + Pick(rnd, []string{"", "x", "2", "json"})
+			if sib != dir {
+				write(sib, genContent())
+			}
+			for _, p := range []string{dir + sep, sib, dir + sep[:1]} {
+				if rnd.Chance(70) {
+					list(p)
+				}
+			}
+			list(dir)
+			out.Note("ops:sibling-sorts-before-directory-contents")
+		case k < 19:
+			list(genPrefix(known))
+		default: // storage.Copy inside the bucket, then overwrites and reads of both names
+			src := genName(known)
+			if len(known) > 0 && rnd.Chance(80) {
+				src = Pick(rnd, known)
+			}
+			dst := genName(known)
+			switch rnd.Intn(10) {
+			case 0:
+				dst = src // onto itself
+				out.Note("ops:copy-onto-itself")
+			case 1, 2:
+				if len(known) > 0 {
+					dst = Pick(rnd, known) // replaces an object
+				}
+			}
+			ok := doCopy(s.b, dst, src)
 			if ok {
-				known = append(known, name)
+				known = append(known, dst)
+				out.Note("ops:copy-ok")
 			} else {
-				collide = true
+				out.Note("ops:copy-refused")
 			}
-			if len(c) == 0 {
-				emptyc = true
-			}
-			fields = append(fields, "w", HS(name), H(c), B(ok))
-		case k < 8:
-			name := genName(known)
-			tag, data := doRead(s.b, name)
-			if tag == "isdir" || tag == "notdir" {
-				collide = true
-			}
-			fields = append(fields, "r", HS(name), tag, H(data))
-		default:
-			p := genPrefix(known)
-			names := doList(s.b, p)
-			if p != "" && !strings.HasSuffix(p, "/") {
-				cutmid = true
-			}
-			fields = append(fields, "l", HS(p), I(int64(len(names))))
-			for _, n := range names {
-				fields = append(fields, HS(n))
+			ops = append(ops, "c", HS(dst), HS(src), B(ok))
+			nops++
+			read(dst) // what the destination holds right after the copy
+			if ok && rnd.Chance(75) {
+				// the two names are independent objects afterwards
+				first, second := src, dst
+				if rnd.Bool() {
+					first, second = dst, src
+				}
+				write(first, genContent())
+				read(second)
+				read(first)
+				if rnd.Bool() {
+					write(second, genContent())
+					read(first)
+					read(second)
+				}
+				out.Note("ops:copy-then-overwrite")
 			}
 		}
 	}
+	fields := []string{"ops", I(int64(nops))}
+	fields = append(fields, ops...)
 	fields = append(fields, B(s.confined()))
 	fields = append(fields, s.tree()...)
 	if collide {
